@@ -20,6 +20,12 @@
   R30h  a `println!(..);` statement is dropped (the port's read_dir prints every entry to stdout; stdout is not part of any property)
   R30j  an async lock acquisition `h.read().await` / `h.write().await` (async_std RwLock) reads `h.read().unwrap()` / `h.write().unwrap()`, and
         `futures::executor::block_on(h.write())` likewise: this is the shape rule R4 (lock cell store-passing) knows; the async lock cannot be poisoned
+  R30k  the write handle's poll delegations: `Pin::new(&mut x)` -> `(&mut x)` (pinning an `Unpin` value is the identity); `c.poll_write(cx, buf)` /
+        `c.poll_flush(cx)` / `c.poll_close(cx)` on the inner async Cursor -> `verif_cursor_poll_write(c, buf)` / `..._flush(c)` / `..._close(c)`
+        (assumed: async_std's Cursor wraps std's and its polls are the blocking std calls inside `Poll::Ready`); `cx.waker().wake_by_ref();` is dropped
+        (wakers are scheduling, not behaviour: a lost wake-up is not detectable here); `match self.fs.try_write() { Some(mut handle) => {..} None => {..} }`
+        -> `match verif_try_lock() { true => { let mut handle = self.fs.write().unwrap(); .. } false => {..} }` (an arbitrary boolean says whether the
+        lock was free; the acquisition itself then has the shape rule R4 knows)
   R30e  `let mut s = E; while let Some(x) = s.next() { B }` -> `for x in E { B }` when `s` occurs neither in B nor later in the enclosing
         block: this is the definition of `for` (repeated `next()` until `None`), and it lets the sync loop invariants speak about the port's loop
 Nothing else changes. What this drops is stated in DESIGN section 3 (R30) and in the evidence (trusted base: "await points are transparent").
@@ -37,7 +43,7 @@ RENAME = {
 def erase(src):
     toks = lex(src)
     out = []
-    counts = {'R30a': 0, 'R30b': 0, 'R30c': 0, 'R30d': 0, 'R30e': 0, 'R30f': 0, 'R30g': 0, 'R30h': 0, 'R30i': 0, 'R30j': 0}
+    counts = {'R30a': 0, 'R30b': 0, 'R30c': 0, 'R30d': 0, 'R30e': 0, 'R30f': 0, 'R30g': 0, 'R30h': 0, 'R30i': 0, 'R30j': 0, 'R30k': 0}
     pos = 0
     i = 0
     n = len(toks)
@@ -226,6 +232,23 @@ def erase(src):
         text = re.sub(r'\blet\s+this\s*=\s*self\s*;', '', text)
         text, k = re.subn(r'\bthis\b', 'self', text)
         counts['R30i'] += k
+    # R30k: the write handle's poll delegations
+    k_total = 0
+    text, k = re.subn(r'\bPin::new\(\s*&mut\s+([A-Za-z_][A-Za-z0-9_.]*)\s*\)', r'(&mut \1)', text)
+    k_total += k
+    text, k = re.subn(r'\b([a-z_][A-Za-z0-9_]*)\.poll_(write|flush|close)\(\s*cx\s*(,\s*)?', r'verif_cursor_poll_\2(\1\3', text)
+    k_total += k
+    text, k = re.subn(r'\bcx\.waker\(\)\.wake_by_ref\(\);', '', text)
+    k_total += k
+    m = re.search(r'match\s+self\.fs\.try_write\(\)\s*\{(\s*)Some\(mut\s+handle\)\s*=>\s*\{', text)
+    if m:
+        rest = text[m.end():]
+        m2 = re.search(r'\bNone\s*=>', rest)
+        if m2:
+            rest = rest[:m2.start()] + 'false =>' + rest[m2.end():]
+            text = text[:m.start()] + 'match verif_try_lock() {' + m.group(1) + 'true => { let mut handle = self.fs.write().unwrap();' + rest
+            k_total += 1
+    counts['R30k'] = k_total
     text, counts['R30e'] = while_let_to_for(text)
     return text, counts
 
